@@ -22,6 +22,8 @@ variable having dimension i, the reference slice at the position of v.  *unconst
 for intermediate arrays, for internal axes, xarray index objects, whether a variable is a data variable or a coordinate,
 dims of outputs without MapSpec, a KeyError of xarray_dataset_from_results caused only by this harness handing it a
 sub-dict of the results that lacks an intermediate it wants to load (a sub-dict is not "results as returned by map").
+One extra *must-not* taken from the docstring of ``load_intermediate`` (not from the statement, own violation kind): with
+load_intermediate=False no pipeline output is a coordinate on another variable's dimension.
 """
 from __future__ import annotations
 
@@ -45,20 +47,23 @@ LEVEL = "exploration"
 TECHNIQUE = ("bounded-exhaustive enumeration of MapSpec pipelines x storage x load_intermediate x requested outputs; both dataset "
              "builders run on a real map run and compared with an axis-provenance + term-denotation reference, incl. sel() on every "
              "coordinate value")
-RULE = ("G-MAP (vmc/gen_map.py, roots {x[i]; x[i],y[i]; x[i],y[j]; x[i,j]; x[i,j],y[j]; x[i],n}, distinct string elements). quick: every "
-        "1-function pipeline x {dict+persist, file_array} x load_intermediate {T,F} x every non-empty subset of outputs + 'all'; every "
-        "2-function pipeline whose second function consumes only `a`, or `a` and a new 1-D root z zipped with a's first axis (first "
-        "function: one output, no internal axis other than the zipped one; second: no internal axis): file_array x {T,F} x (each single output + 'all'), dict x {T,F} x 'all'. thorough: every "
-        "2-function pipeline of the quick generator with file_array x {T,F} x every subset + 'all' and dict x {T,F} x (singles + "
-        "'all'); 3-function pipelines h over (c) or (c,a) on top of the quick 2-function sub-bound, file_array x {T,F} x (singles + "
-        "'all'). non-trivial = distinct (pipeline, load_intermediate, requested names) whose dataset must carry at least one "
-        "1-D-root coordinate")
+RULE = ("G-MAP (vmc/gen_map.py quick generator: roots {x[i]; x[i],y[i]; x[i],y[j]; x[i,j]; x[i,j],y[j]; x[i],n}, distinct string elements, "
+        "1-D roots as lists). quick: every 1-function pipeline x {dict+persist, file_array} x load_intermediate {T,F} x ('all' + every "
+        "non-empty subset of the output names); every 2-function pipeline whose second function consumes only `a`, or `a` and a new "
+        "1-D root z zipped with a's first axis (first function: one output, no internal axis other than the zipped one; second: no "
+        "internal axis): file_array x {T,F} x ('all' + each single output), dict x {T,F} x 'all'. thorough adds: the rest of the full "
+        "product for that 2-function sub-bound (file_array: remaining subsets, dict: singles); every other 2-function pipeline of the "
+        "generator with file_array x {T,F} x ('all' + singles); 3-function pipelines = the 2-function sub-bound extended by every h "
+        "consuming only `c` (no internal axis on h), file_array x {T,F} x ('all' + singles). non-trivial = distinct (pipeline, "
+        "load_intermediate, requested names) whose dataset must carry at least one 1-D-root coordinate")
 ASSUMPTIONS = ["reference denotation vmc/gen_map.py:ref_map and axis provenance c19.provenance (own code, independent of trace_dependencies)",
                "a dataset variable may be a data variable or a coordinate (intermediates loaded as coordinates are accepted)",
                "'multi-index' is accepted as a coordinate on the axis whose to_index() is a pandas.MultiIndex with the inputs as named levels",
                "xarray_dataset_from_results is given the map results restricted to the requested names; a KeyError for an intermediate "
                "missing from that sub-dict is harness-induced and skipped (counted in strata)",
                "installed xarray/pandas versions (xarray 2026.7, pandas 3.0) define sel()/identical() behaviour",
+               "load_intermediate=False: no pipeline output may be a coordinate on another dimension (from the parameter's docstring, not "
+               "from the property statement; own violation kind 'intermediate-coordinate-without-load_intermediate')",
                "sequential map run; correctness of the map results themselves is C01's business (values are still compared here)"]
 BUDGET = {"quick": 75.0, "thorough": 900.0}
 
@@ -157,9 +162,10 @@ def _mi_coords(ds):
     return out
 
 
-def check_dataset(ds, spec, names, inputs, env, sel=True):  # noqa: C901, PLR0912, PLR0915
+def check_dataset(ds, spec, names, inputs, env, li=True, sel=True, stats=None):  # noqa: C901, PLR0912, PLR0915
     """list of (signature-part dict, text) for one dataset that was asked to hold `names`"""
     out = []
+    stats = collections.Counter() if stats is None else stats
     mis = _mi_coords(ds)
     # -- variables ---------------------------------------------------------------------------
     for o in names:
@@ -185,6 +191,7 @@ def check_dataset(ds, spec, names, inputs, env, sel=True):  # noqa: C901, PLR091
         if x in ds.coords:
             c = ds.coords[x]
             where[x] = None
+            stats["coordinate-direct"] += 1
             if tuple(c.dims) != (axis,):
                 out.append(({"kind": "coord-wrong-axis", "level": False}, f"coordinate {x} is on {tuple(c.dims)}, input is mapped along ({axis},)"))
             elif terms.T(c.values) != want:
@@ -195,6 +202,7 @@ def check_dataset(ds, spec, names, inputs, env, sel=True):  # noqa: C901, PLR091
             out.append(({"kind": "coord-missing", "zipped": any(x in g for _, g in zips)}, f"1-D root input {x} (axis {axis}) is not a coordinate; coords = {list(ds.coords)}"))
             continue
         where[x] = holder
+        stats["coordinate-as-multiindex-level"] += 1
         dims, idx = mis[holder]
         if dims != (axis,):
             out.append(({"kind": "coord-wrong-axis", "level": True}, f"multi-index {holder} holding {x} is on {dims}, input is mapped along ({axis},)"))
@@ -202,9 +210,17 @@ def check_dataset(ds, spec, names, inputs, env, sel=True):  # noqa: C901, PLR091
             out.append(({"kind": "coord-values", "level": True}, f"level {x} of {holder} = {list(idx.get_level_values(x))}, input = {want}"))
     for axis, grp in sorted(zips):
         ok = any(dims == (axis,) and set(grp) <= set(idx.names) for dims, idx in mis.values())
+        stats["zip-group-checked"] += 1
         if not ok:
             out.append(({"kind": "zip-not-one-multiindex"}, f"zipped inputs {grp} on axis {axis} are not combined into one multi-index; coords = "
                         f"{ {n: tuple(c.dims) for n, c in ds.coords.items()} }"))
+    # -- load_intermediate=False (docstring of the parameter: "Whether to load intermediate outputs as coordinates") -----------
+    if not li:
+        for n in all_outputs(spec):
+            if n in ds.coords and tuple(ds.coords[n].dims) != (n,):  # (n,): xarray's own promotion of a 1-D variable named like its dim
+                out.append(({"kind": "intermediate-coordinate-without-load_intermediate"},
+                            f"load_intermediate=False but output {n} is a coordinate on {tuple(ds.coords[n].dims)}"))
+                break
     # -- selection by coordinate value -------------------------------------------------------
     if not sel or any(s["kind"].startswith(("coord-", "dims-", "missing-")) for s, _ in out):
         return out
@@ -245,6 +261,7 @@ def check_dataset(ds, spec, names, inputs, env, sel=True):  # noqa: C901, PLR091
                         bad = True
                         break
                     got = np.take(got, 0, axis=pos)
+                stats["sel-slices-compared"] += 1
                 if terms.T(got) != terms.T(exp):
                     out.append(({"kind": "sel-wrong-element", "level": where.get(x) is not None},
                                 f"sel({x}={v!r})[{o}] = {terms.T(got)[:160]}, the element computed from {v!r} is {terms.T(exp)[:160]}"))
@@ -288,7 +305,7 @@ def run_group(spec, storage, combos):  # noqa: C901, PLR0912
             fail = (findings.exc_sig(e, phase="map", **pred), f"map failed on {desc}: {type(e).__name__}: {str(e)[:120]}")
         for li, names in combos:
             case = {"spec": spec, "storage": storage, "li": li, "outs": names}
-            info = {"coords": 0, "zips": 0, "outcome": None, "skipped_subdict": False}
+            info = {"coords": 0, "zips": 0, "outcome": None, "skipped_subdict": False, "stats": collections.Counter()}
             if fail is not None:
                 yield case, [fail], info
                 continue
@@ -334,7 +351,7 @@ def run_group(spec, storage, combos):  # noqa: C901, PLR0912
                 if entry == "load" and same:
                     continue  # identical to the one already checked
                 with _quiet():
-                    for part, text in check_dataset(ds, spec, req, inputs, env):
+                    for part, text in check_dataset(ds, spec, req, inputs, env, li=li, stats=info["stats"]):
                         viol.append(({**part, "li": li}, f"[{entry}, load_intermediate={li}, names={names}] {text} on {desc}"))
                 info["outcome"] = _describe(ds)
             yield case, viol, info
@@ -481,6 +498,8 @@ def run_unit(unit):
                     acc.stratum("from_results-skipped(sub-dict lacks an intermediate)")
                 if info["outcome"]:
                     acc.outcome(info["outcome"])
+                for name, cnt in info["stats"].items():
+                    acc.stratum("checked:" + name, cnt)
                 for sig, text in viol:
                     acc.violation(sig, case, text)
         if k % (n * 40) == c:
